@@ -46,7 +46,21 @@ fn check_e1302_vehicle_shift_time(ctx: &ValidationContext) -> Result<(), FormatE
                     ]
                 })
                 .collect::<Vec<_>>();
-            if check_raw_time_windows(&tws, false) { None } else { Some(vehicle.type_id.to_string()) }
+            // NOTE optional dates are parsed later without checks
+            let has_valid_optional_dates = vehicle.shifts.iter().all(|shift| {
+                shift
+                    .start
+                    .latest
+                    .iter()
+                    .chain(shift.end.iter().flat_map(|end| end.earliest.iter()))
+                    .all(|time| parse_time_safe(time).is_ok())
+            });
+
+            if check_raw_time_windows(&tws, false) && has_valid_optional_dates {
+                None
+            } else {
+                Some(vehicle.type_id.to_string())
+            }
         })
         .collect::<Vec<_>>();
 
